@@ -380,6 +380,10 @@ def jobs(tier):
             for b1 in (False, True):
                 add("h_agg", agg=agg, N=(3 if q else 4), fl=fl, b1=b1)
         add("h_agg", agg="reduce", N=N, fl=fl)
+        if fl != "agen":
+            for agg in ("sorted", "min", "max", "nlargest", "nsmallest"):
+                add("h_agg", agg=agg, N=3, fl=fl, b1=True, ffl="obj")
+                add("h_agg", agg=agg, N=2, fl=fl, b1=True, ffl="defaw")
         if fl != "list":
             for agg in ("nlargest", "nsmallest", "sorted", "min", "max"):
                 add("h_agg", agg=agg, N=3, fl=fl, b1=True, allbad=True)
